@@ -53,11 +53,13 @@ type kProcPlan struct {
 	StandbyAt  time.Duration
 	StandbyFor time.Duration
 	UID        int // user the process runs as (0 = root)
+	// during the outage every operation first hangs for this long and then fails (0 = fails at once)
+	OutageSlow time.Duration
 }
 
 func (p kProcPlan) String() string {
-	return fmt.Sprintf("{off=%v host=%s start=%v excl=%v retry=%v hold=%v work=%v end=%s janitor=%v stall=%d:%v outage=%v+%v attempts=%d remove-lost=%d standby=%v+%v uid=%d}",
-		p.Offset, p.Host, p.Start, p.Excl, p.Retry, p.Hold, p.WorkEvery, p.End, p.Janitor, p.StallOn, p.Stall, p.OutageAt, p.OutageFor, p.Attempts, p.RemoveLostOn, p.StandbyAt, p.StandbyFor, p.UID)
+	return fmt.Sprintf("{off=%v host=%s start=%v excl=%v retry=%v hold=%v work=%v end=%s janitor=%v stall=%d:%v outage=%v+%v attempts=%d remove-lost=%d standby=%v+%v uid=%d slow-outage=%v}",
+		p.Offset, p.Host, p.Start, p.Excl, p.Retry, p.Hold, p.WorkEvery, p.End, p.Janitor, p.StallOn, p.Stall, p.OutageAt, p.OutageFor, p.Attempts, p.RemoveLostOn, p.StandbyAt, p.StandbyFor, p.UID, p.OutageSlow)
 }
 
 func genLockPlans(tp *simrt.Tape) []kProcPlan {
@@ -99,6 +101,10 @@ func genLockPlans(tp *simrt.Tape) []kProcPlan {
 		case 2: // an outage
 			p.OutageAt = []time.Duration{1 * time.Minute, 6 * time.Minute, 11 * time.Minute}[tp.Choose(3)]
 			p.OutageFor = []time.Duration{3 * time.Minute, 12 * time.Minute, 40 * time.Minute}[tp.Choose(3)]
+			if tp.Choose(2) == 0 {
+				// requests hang before they fail: the forced refresh (backend frozen meanwhile) takes a while
+				p.OutageSlow = []time.Duration{15 * time.Second, 50 * time.Second, 90 * time.Second}[tp.Choose(3)]
+			}
 		case 3: // a slow refresh, then an outage
 			p.StallOn = 2 + tp.Choose(2)
 			p.Stall = time.Duration(3+tp.Choose(4)) * time.Minute
@@ -236,7 +242,12 @@ func runLocks(r *hx.Rec, property string) {
 			// lock files this process removed itself (name -> true)
 			unlockedClean      bool
 			lockRemovedByOther bool
-			staleLockRemoved   bool // another process removed this holder's lock file when it was stale for that process
+			// a lock-file operation of this holder was in flight when its newest lock file passed the
+			// refreshability deadline (22.5 min on the holder's clock): the situation of the recorded finding
+			// "a stalled refresh delays the forced stop"
+			stalledAtDeadline bool
+			workCtx           context.Context // the lock context the work loop is currently using
+			staleLockRemoved  bool // another process removed this holder's lock file when it was stale for that process
 			staleSig           string // signature of the first stops-before-stale episode of the current belief
 		}
 		var mu sync.Mutex
@@ -258,6 +269,7 @@ func runLocks(r *hx.Rec, property string) {
 			byPID[p.PID] = ps
 			lockSaves := 0
 			lockRemoves := 0
+			slowed := map[int]bool{}
 			cl.Script = func(op string, h backend.Handle, n int) *simbe.Forced {
 				if h.Type == backend.LockFile && op == "Remove" && pl.RemoveLostOn != 0 {
 					lockRemoves++
@@ -269,6 +281,15 @@ func runLocks(r *hx.Rec, property string) {
 				if pl.OutageAt != 0 && !ps.start.IsZero() {
 					el := time.Since(ps.start)
 					if el >= pl.OutageAt && el < pl.OutageAt+pl.OutageFor {
+						if pl.OutageSlow > 0 && !slowed[n] {
+							slowed[n] = true
+							return &simbe.Forced{Kind: "delay", Delay: pl.OutageSlow}
+						}
+						s.Count("fault:outage-error")
+						return &simbe.Forced{Kind: "err-before"}
+					}
+					if slowed[n] {
+						// the outage ended while the request was hanging: it fails all the same
 						s.Count("fault:outage-error")
 						return &simbe.Forced{Kind: "err-before"}
 					}
@@ -384,6 +405,11 @@ func runLocks(r *hx.Rec, property string) {
 				return
 			}
 			r.Count("work_ops", 1)
+			// (f) the holder's lock context is already cancelled (it gave the lock up) and a repository
+			// modification of it still reaches the storage
+			if holder.belief.ctx != nil && holder.belief.ctx.Err() != nil && holder.workCtx == holder.belief.ctx {
+				fail("stops-after-cancel", "modification-after-cancel", "%s: %s %v reaches the storage although the lock context was cancelled before (t=%v)", holder.proc.Name, op, h, s.Elapsed())
+			}
 			// (e) standby scenario: the holder's stale lock file was removed by someone else while the holder
 			// slept; once it is awake (and had a moment to look) it must not modify the repository any more
 			if holder.plan.StandbyFor != 0 && holder.staleLockRemoved && !inStandby(holder) && holder.belief.active && holder.belief.ctx.Err() == nil {
@@ -394,8 +420,9 @@ func runLocks(r *hx.Rec, property string) {
 			if li, ok := newest(holder); ok && !inStandby(holder) {
 				if stale, who := staleFor(holder, li); stale {
 					sig := "modification-after-stale"
-					if holder.cl.InFlightLock > 0 {
-						// a lock-file operation of the holder (a stalled refresh) is in flight at this instant
+					if holder.cl.InFlightLock > 0 || holder.stalledAtDeadline {
+						// a lock-file operation of the holder (a stalled refresh) is in flight at this instant,
+						// or was when the refreshability deadline passed
 						sig = "modification-after-stale-while-refresh-in-flight"
 					}
 					// one episode keeps the signature it started with
@@ -410,6 +437,13 @@ func runLocks(r *hx.Rec, property string) {
 		s.AddMonitor(func() {
 			mu.Lock()
 			defer mu.Unlock()
+			for _, p := range procs {
+				if p.belief.active && p.belief.ctx.Err() == nil && p.cl.InFlightLock > 0 && !p.stalledAtDeadline {
+					if li, ok := newest(p); ok && time.Now().Add(p.proc.ClockOffset).Sub(li.Time) >= 22*time.Minute+30*time.Second {
+						p.stalledAtDeadline = true
+					}
+				}
+			}
 			// C12: conflicting beliefs
 			for i, p := range procs {
 				if !p.belief.active || p.belief.ctx.Err() != nil || p.cl.Dead || inStandby(p) {
@@ -421,7 +455,7 @@ func runLocks(r *hx.Rec, property string) {
 					}
 					if p.belief.excl || q.belief.excl {
 						sig := "conflicting-locks"
-						if p.cl.InFlightLock > 0 || q.cl.InFlightLock > 0 {
+						if p.cl.InFlightLock > 0 || q.cl.InFlightLock > 0 || p.stalledAtDeadline || q.stalledAtDeadline {
 							sig = "conflicting-locks-while-refresh-in-flight"
 						}
 						// one episode (pair of overlapping beliefs) keeps the signature it started with
@@ -476,8 +510,10 @@ func runLocks(r *hx.Rec, property string) {
 					r.Count("lock_acquired", 1)
 					mu.Lock()
 					ps.belief = kBelief{active: true, excl: pl.Excl, ctx: lctx}
+					ps.workCtx = lctx
 					ps.lockRemovedByOther = false
 					ps.staleLockRemoved = false
+					ps.stalledAtDeadline = false
 					ps.staleSig = ""
 					mu.Unlock()
 					// work while the lock context is live
